@@ -30,7 +30,7 @@ ASSUMPTIONS = [
     'Gaussian priors are kept within +/-10 % of physical nominal values (negative temperatures etc. are not among the invalid-atmosphere classes of the statement)',
     'chi^2 == 0 (model equal to data) is outside the domain (the code maps it to NaN on purpose)',
 ]
-REQUIRED = {'sampler:nestle': 0.1, 'sampler:multinest': 0.1, 'sampler:polychord': 0.1, 'has-invalid-point': 0.1}
+REQUIRED = {'retargeted:after-use': 0.1, 'retargeted:before-use': 0.1, 'observation-parameter-fitted': 0.15, 'sampler:nestle': 0.1, 'sampler:multinest': 0.1, 'sampler:polychord': 0.1, 'has-invalid-point': 0.1}
 
 POOL = ['planet_radius', 'T', 'mol0', 'mol1', 'fill', 'clouds_pressure']
 
@@ -51,7 +51,8 @@ def _case(draw):
     obs = {'nb': nb, 'cols': draw(st.sampled_from([4, 3])), 'perm': draw(st.permutations(list(range(nb)))),
            'noise': draw(st.lists(st.floats(-1, 1), min_size=nb, max_size=nb)),
            'err': draw(st.lists(st.floats(0.2, 3.0), min_size=nb, max_size=nb)),
-           'pos': draw(st.floats(0.05, 0.95)), 'wfac': draw(st.lists(st.floats(0.3, 0.9), min_size=nb, max_size=nb))}
+           'pos': draw(st.floats(0.05, 0.95)), 'wfac': draw(st.lists(st.floats(0.3, 0.9), min_size=nb, max_size=nb)),
+           'obs_param': draw(st.sampled_from([True, False, False]))}
     npts = draw(st.integers(4, 14))
     pts = [{'u': draw(st.lists(st.floats(0.02, 0.98), min_size=5, max_size=5)),
             'invalid': draw(st.sampled_from([True, False, False]))} for _ in range(npts)]
@@ -60,7 +61,7 @@ def _case(draw):
     w['extras'] = ['SimpleClouds'] if family == 'transmission' else []      # a cloud deck blanks the emission spectrum
     w['fill'] = ['H2', 'He']
     return {'world': w, 'sampler': sampler, 'family': family, 'fitted': list(fitted), 'priors': pri, 'obs': obs,
-            'points': pts, 'ngauss': draw(st.integers(1, 3)), 'retarget': draw(st.sampled_from([True, False, False]))}
+            'points': pts, 'ngauss': draw(st.integers(1, 3)), 'retarget': draw(st.sampled_from(['after-use', 'before-use', False, 'after-use', 'before-use', False]))}
 
 
 def strategy(tier):
@@ -129,7 +130,38 @@ def make_observation(out, o, native, nspec, w):
     dwl = 10000.0 * (width * np.array(o['wfac'][:nb])) / centres ** 2
     rows = np.array([wl, val, err] + ([dwl] if o['cols'] == 4 else [])).T
     perm = [i for i in o['perm'] if i < nb]
-    return cut(out, 'observation', ArraySpectrum, rows[perm].copy())
+    return cut(out, 'observation', (scaled_observation_class() if o.get('obs_param') else ArraySpectrum), rows[perm].copy())
+
+
+_SCALED = []
+
+
+def scaled_observation_class():
+    """an observation with a fitting parameter of its own that rescales the data (an instrument calibration
+    factor): the likelihood must compare the model with the observation AS IT IS at the sampled point"""
+    if _SCALED:
+        return _SCALED[0]
+    from taurex.data.spectrum import ArraySpectrum
+    from taurex.core import fitparam
+
+    class ScaledObservation(ArraySpectrum):
+        def __init__(self, arr):
+            super().__init__(arr)
+            self._scale = 1.0
+
+        @property
+        def spectrum(self):
+            return self._obs_spectrum[:, 1] * self._scale
+
+        @fitparam(param_name='obs_scale', param_latex='s', default_mode='linear', default_fit=False, default_bounds=[0.5, 2.0])
+        def scale(self):
+            return self._scale
+
+        @scale.setter
+        def scale(self, value):
+            self._scale = value
+    _SCALED.append(ScaledObservation)
+    return ScaledObservation
 
 
 @st.composite
@@ -138,7 +170,8 @@ def observation_spec(draw):
     return {'nb': nb, 'cols': draw(st.sampled_from([4, 3])), 'perm': draw(st.permutations(list(range(nb)))),
             'noise': draw(st.lists(st.floats(-1, 1), min_size=nb, max_size=nb)),
             'err': draw(st.lists(st.floats(0.2, 3.0), min_size=nb, max_size=nb)),
-            'pos': draw(st.floats(0.05, 0.95)), 'wfac': draw(st.lists(st.floats(0.3, 0.9), min_size=nb, max_size=nb))}
+            'pos': draw(st.floats(0.05, 0.95)), 'wfac': draw(st.lists(st.floats(0.3, 0.9), min_size=nb, max_size=nb)),
+            'obs_param': draw(st.sampled_from([False, True, False]))}
 
 
 def check(case):
@@ -172,10 +205,12 @@ def check(case):
             # ---- optimizer -----------------------------------------------------------------------------
             # history: the optimizer is first bound to a DIFFERENT observation (other bin layout) and
             # then re-targeted with set_observed(); the callbacks must refer to the current one
-            retarget = bool(case.get('retarget'))
+            retarget = case.get('retarget')
+            retarget = 'before-use' if retarget is True else (retarget or None)
             final_obs = obs
             if retarget:
                 out.cls('retargeted')
+                out.cls('retargeted:' + retarget)
                 o2 = dict(case['obs'])
                 o2['nb'] = 3 if case['obs']['nb'] != 3 else 5
                 for k_ in ('noise', 'err', 'wfac'):
@@ -191,7 +226,7 @@ def check(case):
             else:
                 mod = importlib.import_module('taurex.optimizer.polychord')
                 opt = cut(out, 'optimizer', mod.PolyChordOptimizer, polychord_path=tmpdir, observed=obs, model=m)
-            if retarget:
+            if retarget == 'before-use':
                 cut(out, 'set_observed', opt.set_observed, final_obs)
                 obs = final_obs
             roles = [r for r in case['fitted'] if param_name(r, w) is not None and param_name(r, w) in m.fittingParameters]
@@ -208,8 +243,45 @@ def check(case):
             if not roles:
                 out.cls('nothing-fitted')
                 return out
+            obs_param = bool(case['obs'].get('obs_param'))
+            if obs_param:
+                out.cls('observation-parameter-fitted')
+                if retarget == 'after-use':
+                    opt.enable_fit('obs_scale')
+                    opt.set_prior('obs_scale', P.Uniform(bounds=[0.6, 1.7]))
+            if retarget == 'after-use':
+                # the optimizer is USED with the first observation (a likelihood is evaluated) before it is pointed at
+                # the final one: nothing of the first use may survive
+                cut(out, 'compile_params', opt.compile_params)
+                try:
+                    opt.compute_fit()
+                except doubles.Captured:
+                    pass
+                except Exception as e:
+                    out.fail('sampler-called@%s,raises:%s' % (sampler, type(e).__name__), str(e)[:200])
+                    return out
+                nd0 = cap.ndim
+                u0 = np.full(nd0 + 2, 0.5)
+                with np.errstate(all='ignore'):
+                    try:
+                        if sampler == 'nestle':
+                            cap.loglike(cap.prior(u0[:nd0]))
+                        elif sampler == 'multinest':
+                            cap.prior(u0, nd0, nd0)
+                            cap.loglike(u0, nd0, nd0)
+                        else:
+                            cap.loglike(np.asarray(cap.prior(u0[:nd0])))
+                    except Exception as e:
+                        out.fail('loglike-callback-raises@%s,first-observation' % sampler, '%s: %s' % (type(e).__name__, e))
+                        return out
+                cut(out, 'set_observed', opt.set_observed, final_obs)
+                obs = final_obs
+            if obs_param:
+                opt.enable_fit('obs_scale')
+                opt.set_prior('obs_scale', P.Uniform(bounds=[0.6, 1.7]))
+                specs['obs_scale'] = ('Uniform', {'bounds': [0.6, 1.7]})
             cut(out, 'compile_params', opt.compile_params)
-            order = [p for p in m.fittingParameters if p in specs]          # model order
+            order = [p for p in m.fittingParameters if p in specs] + (['obs_scale'] if obs_param else [])   # model order, then observation
             ndim = len(order)
             try:
                 opt.compute_fit()
@@ -246,8 +318,12 @@ def check(case):
                 return r[0]
 
             def reference(x):
+                oscale = 1.0
                 for name, xv in zip(order, x):
                     kind, kw = specs[name]
+                    if name == 'obs_scale':
+                        oscale = xv
+                        continue
                     m2[name] = (10.0 ** xv) if kind.startswith('Log') else xv
                 with np.errstate(all='ignore'):
                     g, s, _, _ = m2.model(wngrid=own.copy())
@@ -260,8 +336,8 @@ def check(case):
                     v, _, tot, _, _ = overlap_mean(g - nw / 2, g + nw / 2, s, own[i] - oww[i] / 2, own[i] + oww[i] / 2)
                     if tot <= 0:
                         return None
-                    chi += ((oval[i] - float(v)) / oerr[i]) ** 2
-                    exact = exact and abs(oval[i] - float(v)) <= 1e-12 * abs(oval[i])
+                    chi += ((oval[i] * oscale - float(v)) / oerr[i]) ** 2
+                    exact = exact and abs(oval[i] * oscale - float(v)) <= 1e-12 * abs(oval[i])
                 # an exact fit up to rounding: whether chi^2 is exactly 0 (-> NaN on purpose) or 1e-30 depends on the
                 # order of the floating-point sums, so it is excluded like chi^2 == 0
                 if chi == 0.0 or exact:
